@@ -225,6 +225,9 @@ def judge(payload, params):
         res = st['res']
         res['ex'] = set(res['ex'])
         res['dc'] = set(res['dc'])
+        if '*' in res['ex']:
+            stats['unspecified-terms'] += 1      # e.g. an expression without any class operand: plain Python, not pregex
+            continue
         dep = depth(term)
         if primary:
             stats['states'] += 1
